@@ -209,6 +209,70 @@ def compactPenalty : List Int → Int
   | [] => 0
   | p0 :: rest => (p0 :: rest).foldl (fun acc _ => min acc p0) 0
 
+/-! ### the pickle boundary (`__getstate__` / `__setstate__`): results of worker processes, `--high_memory --threads > 1` -/
+
+/-- a value in the state tuple -/
+inductive PVal where
+  | nat (n : Nat) | int (i : Int) | bool (b : Bool) | rtype (t : RType) | nats (l : List Nat)
+  deriving DecidableEq, Repr
+
+/-- the element `__getstate__` emits for a layout entry (`none` = a name the model does not know) -/
+def getField (f : String) (r : Rec) : Option PVal :=
+  if f == "assignment_id" then some (.nat r.aid)
+  else if f == "read_id" then some (.nat r.readId)
+  else if f == "chr_id" then some (.nat r.chr)
+  else if f == "start" then some (.int r.start)
+  else if f == "end" then some (.int r.stop)
+  else if f == "genomic_region.0" then some (.int r.region.1)
+  else if f == "genomic_region.1" then some (.int r.region.2)
+  else if f == "multimapper" then some (.bool r.multimapper)
+  else if f == "polyA_found" then some (.bool r.polyA)
+  else if f == "assignment_type" then some (.rtype r.atype)
+  else if f == "gene_assignment_type" then some (.rtype r.gtype)
+  else if f == "penalty_score" then some (.int r.penalty)
+  else if f == "isoforms" then some (.nats r.isoforms)
+  else if f == "genes" then some (.nats r.genes)
+  else none
+
+/-- `self.<f> = v` in `__setstate__` (Python stores whatever it is given: a value of another kind in a slot is kept
+    as such and breaks the consumer later; the model reports it as `none`) -/
+def setField (f : String) (v : PVal) (r : Rec) : Option Rec :=
+  match v with
+  | .nat n =>
+    if f == "assignment_id" then some { r with aid := n }
+    else if f == "read_id" then some { r with readId := n }
+    else if f == "chr_id" then some { r with chr := n }
+    else none
+  | .int i =>
+    if f == "start" then some { r with start := i }
+    else if f == "end" then some { r with stop := i }
+    else if f == "genomic_region.0" then some { r with region := (i, r.region.2) }
+    else if f == "genomic_region.1" then some { r with region := (r.region.1, i) }
+    else if f == "penalty_score" then some { r with penalty := i }
+    else none
+  | .bool b =>
+    if f == "multimapper" then some { r with multimapper := b }
+    else if f == "polyA_found" then some { r with polyA := b }
+    else none
+  | .rtype t =>
+    if f == "assignment_type" then some { r with atype := t }
+    else if f == "gene_assignment_type" then some { r with gtype := t }
+    else none
+  | .nats l =>
+    if f == "isoforms" then some { r with isoforms := l }
+    else if f == "genes" then some { r with genes := l }
+    else none
+
+/-- `__getstate__` over the generated layout -/
+def getstate (r : Rec) : Option (List PVal) := basic_getstate_layout.mapM (fun f => getField f r)
+
+/-- `__setstate__` over the generated layout, on a fresh object -/
+def setstate (st : List PVal) : Option Rec :=
+  basic_setstate_layout.foldlM (fun acc p => (st[p.2]?).bind (fun v => setField p.1 v acc)) (default : Rec)
+
+/-- `pickle.loads(pickle.dumps(a))` -/
+def pickleRoundTrip (r : Rec) : Option Rec := (getstate r).bind setstate
+
 /-! ### how the per-read lists are built (`DatasetProcessor.collect_reads`) -/
 
 /-- append `r` to the list of its read id in an insertion-ordered dict (`defaultdict(list)`) -/
@@ -218,6 +282,10 @@ def dictAppend : List (Nat × List Rec) → Rec → List (Nat × List Rec)
 
 /-- `--high_memory`: every record of every chromosome, in processing order, appended under its read id -/
 def groupAll (records : List Rec) : List (Nat × List Rec) := records.foldl dictAppend []
+
+/-- `--high_memory` with worker processes: the records come back through the pickle boundary -/
+def groupAllPickled (records : List Rec) : Option (List (Nat × List Rec)) :=
+  (records.mapM pickleRoundTrip).map groupAll
 
 /-- default mode, first pass: `multimappers_counts[read_id] += 1` -/
 def countOf (records : List Rec) (rid : Nat) : Nat := (records.filter (fun r => r.readId == rid)).length
